@@ -24,12 +24,12 @@ func main() {
 	}
 	reproFlushTimer(id, f.Seed, f.Out, cf, meta)
 	id++
-	nScripts := f.Count(300, 20000)
+	nScripts := f.Count(300, 6000)
 	for i := 0; i < nScripts; i++ {
 		runScript(id, f.Seed, i, nil, cf, meta)
 		id++
 	}
-	nConc := f.Count(24, 400)
+	nConc := f.Count(24, 200)
 	for i := 0; i < nConc; i++ {
 		runConc(id, f.Seed, 1000000+i, f.Out, cf, meta)
 		id++
